@@ -3,7 +3,7 @@ C06's schedule dimension is shared: every shape is analysed in every reachable p
 
 Class E: solver-enumerated project shapes (lib/templates.py) x every schedule (package module first, sub-modules in any order).
 """
-from lib.hx import harness, pick, pickb, done, tier, PART, note, known
+from lib.hx import harness, pick, pickb, done, tier, PART, note, known, sample
 
 PROPERTY = "C07"
 LEVEL = "exploration"
@@ -25,6 +25,7 @@ def check_reexport(kw, order):
     sources, exporter, newname = T.gen(**kw)
     if exporter is None:
         return True
+    sample(shape=kw, order=order, sources={k: v[0] for k, v in sources.items()})
     try:
         s = PJ.build(sources, schedule=T.scheduler(order))
     except Exception as e:
